@@ -93,8 +93,10 @@ def record(seed, n_traces, n_ev, kinds):
                 tr["qmax"] = rnd.randint(1, 3)
                 obj = P.RotatingBloomFilter(est_elements=est, false_positive_rate=fpr, max_queue_size=tr["qmax"])
         elif kind == "cms":
-            w, d = rnd.choice([(2, 2), (3, 2), (5, 3), (4, 4), (7, 1), (2, 5), (16, 5), (9, 3)])
+            w, d = rnd.choice([(2, 2), (3, 2), (5, 3), (4, 4), (7, 1), (2, 5), (16, 5), (9, 3), (50, 3), (99, 2), (104, 3)])
             mode = rnd.choice(["min", "mean", "mean-min"])
+            if w >= 50:      # widths for which 1 / (w - 1) is not exact in doubles: the mean-min noise term must be an integer division;
+                mode = "mean-min"      # the other keys get multiples of w - 1, so that (total - counter) sits exactly on the boundaries
             cls = {"min": P.CountMinSketch, "mean": P.CountMeanSketch, "mean-min": P.CountMeanMinSketch}[mode]
             obj = cls(width=w, depth=d)
             tr.update(w=w, k=d, mode=mode)
@@ -105,9 +107,10 @@ def record(seed, n_traces, n_ev, kinds):
             m2.random = script
             script.load([])
             # the small tables fill up: the rejected additions (no growth allowed, or a "growth" by factor 1 that cannot succeed) are part of the history
-            grow1 = cap <= 5 and rnd.random() < 0.3
+            grow = rnd.random() < 0.4                      # growth allowed: by factor 2, or by the degenerate factor 1 (a rebuild that cannot help)
+            rate = rnd.choice([1, 2]) if grow else 2
             ms = rnd.choice([1, 2, 3, 5]) if dense else 5
-            obj = cls(capacity=cap, bucket_size=bs, max_swaps=ms, finger_size=fs, auto_expand=grow1, expansion_rate=1 if grow1 else 2)
+            obj = cls(capacity=cap, bucket_size=bs, max_swaps=ms, finger_size=fs, auto_expand=grow, expansion_rate=rate)
             tr.update(cap=cap, bs=bs, ms=ms, fb=8 * fs)
         if kind in ("bloom", "cbloom") and not unicode_keys:
             # a key two of whose probes land on the same cell (hit once per occurrence by add AND by remove): searched for, since it is rare
@@ -136,6 +139,8 @@ def record(seed, n_traces, n_ev, kinds):
                         obj.add(key)
                 elif kind in ("cbloom", "cms"):
                     a = rnd.choice([1, 1, 2, 5])
+                    if kind == "cms" and tr["w"] >= 50 and i != 0:
+                        a = (tr["w"] - 1) * rnd.choice([1, 1, 2, 3])
                     if outstanding[i] > 0 and rnd.random() < 0.3:
                         a = rnd.randint(1, outstanding[i])
                         ev = {"op": "rem", "k": i + 1, "a": a}
@@ -170,12 +175,7 @@ def record(seed, n_traces, n_ev, kinds):
                         try:
                             obj.add(key)
                         except P.exceptions.CuckooFilterFullError:
-                            ev = {"op": "fail", "k": i + 1, "a": 0}      # rejected: whatever was tried, the export must be what it was
-                            script.draws = 0
-                    if script.draws:  # an eviction happened: with growth switched off the recorded draws let the reference writer follow
-                        if grow1 or fs > 3 or obj.capacity != tr["cap"]:      # the kick chain; a rebuild of the table (growth by factor 1) is not followed
-                            break
-                        ev["ch"] = list(script.log)
+                            ev = {"op": "fail", "k": i + 1, "a": 0}      # rejected: whatever was tried, the export holds what it held
             except Exception as exc:  # noqa
                 ev["raised"] = repr(exc)
                 tr["ev"].append(dict(ev, bytes=[], hex=[], ans=[], hdr=NOHDR))
@@ -232,7 +232,7 @@ CHECK_DEADLOCK FALSE
 def validate(traces, timeout=1200):
     slim = [{k: v for k, v in tr.items() if k != "text_keys"} for tr in traces]
     for tr in slim:
-        tr["ev"] = [dict({k: e.get(k, NOHDR) for k in ("op", "k", "a", "bytes", "hex", "ans", "hdr")}, ch=e.get("ch", [])) for e in tr["ev"]]
+        tr["ev"] = [{k: e.get(k, NOHDR) for k in ("op", "k", "a", "bytes", "hex", "ans", "hdr")} for e in tr["ev"]]
     verdicts = {}
 
     def on_json(j):
@@ -285,9 +285,9 @@ def run(focus, tier, seed):
                   "first_export": traces[0]["ev"][0]["bytes"] if traces[0]["ev"] else []})
     total.rules.append(
         "Layout: seeded random histories on the real structures with the default FNV-1a hash (Bloom, counting Bloom, count-min in min/mean/mean-min mode, "
-        "expanding, rotating, cuckoo and counting cuckoo without evictions), every step's exported bytes re-derived by the TLA+ reference writer and "
+        "expanding, rotating; cuckoo and counting cuckoo incl. evictions, growth and rejected additions, judged as well-formed tables holding exactly the history's fingerprints), every step's exported bytes re-derived by the TLA+ reference writer and "
         "re-read by the TLA+ reference reader; non-trivial = distinct exported state whose bit array is not a whole number of bytes or that is not a plain Bloom filter"
     )
-    total.assumptions.append("geometry of Bloom-type structures from a 50-digit evaluation of the documented formula; cuckoo histories with evictions are excluded (the reference writer is deterministic)")
+    total.assumptions.append("geometry of Bloom-type structures from a 50-digit evaluation of the documented formula; where a cuckoo fingerprint sits (bucket, slot) is the library's choice: the reference reads the table back instead of predicting it")
     total.assumptions.append("the reference reader divides with floor semantics (the documented Python behaviour), also on negative intermediates of mean / mean-min")
     return total
